@@ -11,14 +11,14 @@ import common as c
 
 PID = "C20"
 MANIFEST = {
-    "text": "15 Coq theorems over ALL doubles, all library-oracle behaviours meeting stated hypotheses: the display "
+    "text": "16 Coq theorems over ALL doubles, all library-oracle behaviours meeting stated hypotheses: the display "
             "text matches the numeral grammar (sign, integer digits grouped in threes, fraction | mantissa e exponent | "
             "NaN/Infinity/-Infinity) for every valid double (shape hypotheses on {:.N}/{:.14e}/parse + coarse bounds on "
             "log10/powi; Flocq no-overflow proof); grouping/trimming/separator insertion change no value; integers in "
             "the standard range (< 2^53) are shown exactly with no oracle; no overflow panic; 15-significant-digit "
-            "accuracy proved on all three paths under explicit correctness specifications of the library calls "
-            "(integers: error 0; scientific range: <= 1/2 unit; standard non-integers, repaired code: <= 5/8 unit, "
-            "Flocq real analysis) - it is PARTIAL in that the executable library models are tested (ORACLE streams), "
+            "accuracy proved for every valid finite non-zero double (C20_accuracy) under explicit correctness "
+            "specifications of the library calls (integers: error 0; scientific range: <= 1/2 unit; standard "
+            "non-integers, repaired code: <= 5/8 unit, Flocq real analysis) - it is PARTIAL in that the executable library models are tested (ORACLE streams), "
             "not proved, against those specifications (C20_accuracy_full stays a Prop); model tied to the code by the "
             "DISPLAY correspondence (vm_compute vs Rust on bit patterns and boundaries); implementation-level "
             "exact-rational search of the property itself (found C20-F1, fixed in /repo 60da55e)",
@@ -26,8 +26,8 @@ MANIFEST = {
             "DISPLAY); library oracles log10/powi/{:.N}/{:.14e}/parse::<f64> are Section variables in the theorems "
             "(shape / correctness hypotheses stated in each theorem) and exact Z implementations when running "
             "(validated by ORACLE streams; log10 by lookup of the real function's values); axioms: none for 13 "
-            "theorems, the Flocq/Reals axioms of the allow-list for C20_wellformed_total and "
-            "C20_accuracy_partial_standard",
+            "theorems, the Flocq/Reals axioms of the allow-list for C20_wellformed_total, "
+            "C20_accuracy_partial_standard and C20_accuracy",
     "design_ref": "DESIGN.md section 6 C20; notes/C20.md",
 }
 
